@@ -65,7 +65,7 @@ theorem sim_enactForced {t : Tree} (wf : t.WF) {s1 : St} {p1 : Spec} {b : Nat} (
     (hl : LiveInv t s1) (hf : FInv t s1) (hr : RInv t s1) (hb : inBt t s1 b = true) (p : Spec) :
     match applyForced t s1 b with
     | .error e => e = .pending
-    | .ok s2 => (Spec.enactForced t p p1 b).2 = "ok" ∧ Sim t s2 (Spec.enactForced t p p1 b).1 := by
+    | .ok s2 => (Spec.enactForced t p p1 b).2 = .ok ∧ Sim t s2 (Spec.enactForced t p p1 b).1 := by
   have hfind : forcedFind t (isDesc t s1) b (num t b) s1.forced =
       .ok (p1.forced.find? (fun c => anc t c.blk b && decide (eff t c = num t b))) := by
     rw [forcedFind_eq wf _ _ _ _ (fun c hc =>
@@ -100,7 +100,7 @@ theorem sim_enactForced {t : Tree} (wf : t.WF) {s1 : St} {p1 : Spec} {b : Nat} (
       have hany : p1.std.any (fun r => decide (eff t r.ann ≤ fc.best) && anc t r.ann.blk fc.blk) = false := by
         rw [hp.std]; exact any_filter_of_find_none _ _ _ hd
       simp only [hany, Bool.false_eq_true, if_false]
-      refine ⟨rfl, ?_⟩
+      refine ⟨trivial, ?_⟩
       refine ⟨hp.live, hp.root, ?_, ?_, ?_, ?_, ?_, List.Perm.refl _, rfl⟩
       · simp [Spec.enact, startNext, hp.setId]
       · simp [Spec.enact, startNext, hp.authsLen]
@@ -225,7 +225,6 @@ theorem sim_addChange {t : Tree} (wf : t.WF) {s : St} {p : Spec} (hs : Sim t s p
       | some l => rfl
       | none =>
         simp only [Option.map, List.filter_append]
-        have : (s.live ++ [b]).contains d.blk = true := by rw [hd]; simp
-        simp [List.filter, Node.ann, this]
+        simp [List.filter, Node.ann, hd]
 
 end Gossamer.C23
